@@ -119,7 +119,21 @@ impl Check for C09 {
             Tier::Quick => 4,
             Tier::Thorough => 6,
         };
-        let sc = gen_rep_scenario(rng, max_r);
+        let mut sc = gen_rep_scenario(rng, max_r);
+        // "wide near-tie" scenarios: many replicas that finish within 1e-6 .. 1e-4 of each other, so
+        // that a reduction which is not associative (tolerances, partial orders) sees many different
+        // trees over nearly equal candidates
+        let wide = rng.chance(0.12);
+        if wide {
+            sc.replicas = *rng.pick(&[12u64, 16, 24, 32]);
+            sc.lj = false;
+            sc.shape = rng.pick(&["circle", "polygon"]).to_string();
+            sc.steps = *rng.pick(&[5u64, 20]);
+            sc.inner_steps = 1000;
+            sc.kt_start = *rng.pick(&[0.0, 1e-4]);
+            sc.max_step_size = *rng.pick(&[1e-6, 3e-6, 1e-5, 3e-5, 1e-4]);
+            sc.convergence = None;
+        }
         sc.to_json()
             .set("workers", J::uint(*rng.pick(&[1u64, 2, 2, 3, 4, 8, 16])))
             .set("yield_gap", J::uint(*rng.pick(&[0u64, 1000, 1000, 100, 10])))
@@ -127,9 +141,11 @@ impl Check for C09 {
             .set("scheduler", J::str(*rng.pick(&["random", "random", "pct"])))
             .set("pct_depth", J::uint(rng.range_u64(1, 3)))
             .set("sched_seed", J::uint(rng.below(1 << 40)))
-            .set("schedules", J::uint(match tier {
-                Tier::Quick => 4,
-                Tier::Thorough => 8,
+            .set("schedules", J::uint(match (tier, wide) {
+                (Tier::Quick, false) => 4,
+                (Tier::Quick, true) => 12,
+                (Tier::Thorough, false) => 8,
+                (Tier::Thorough, true) => 32,
             }))
             .set("subset_seed", J::uint(rng.below(1 << 40)))
     }
@@ -240,6 +256,7 @@ impl C09 {
         h.u64(reference.hash());
         out.sim_steps += sc.replicas * (1000 + 2 * sc.steps);
         out.count("fault.F-stale(output files existed before the run)", sc.stale_output as u64);
+        out.count("probe.wide_near_tie_scenarios(replicas >= 12)", (sc.replicas >= 12) as u64);
         out.sample = Some(
             J::obj()
                 .set("reference_json_bytes", J::uint(reference.json.as_ref().map(|b| b.len()).unwrap_or(0) as u64))
